@@ -24,6 +24,7 @@
       (Lemmas/ExportsApart; the default configuration satisfies it).
 -/
 import Lc.Lemmas.LayerfileRW
+import Lc.Lemmas.LayerfileScanner
 import Lc.Lemmas.WriteLayerFile
 import Lc.Lemmas.CrashAdd
 import Lc.Lemmas.CrashRename
@@ -518,5 +519,40 @@ theorem rename_interrupted_dangling_base_witness :
       ((findLayers exCfg).run.run w0).1.toBool = true ∧
       ((findLayers exCfg).run.run { r.2 with crashAt := none, faultAt := none }).1.toBool = false := by
   decide +kernel
+
+/-! ### the scanner's 64 KiB line limit
+
+  The command model reads a layerconfig with `readLayerFile`, which has no line limit; the Go
+  reader goes through bufio.Scanner.  `readLayerFileScanner` is the reader WITH the limit (the
+  correspondence check `layerfile.rwr` runs this one against the real ReadLayerFile, lines of
+  65534–65537 bytes and longer included). -/
+
+open Lc.Lemmas.LayerfileScanner Lc.Mountinfo in
+/-- within the limit the two readers are the same function: everything proved about
+    `readLayerFile` holds for the real reader on every file whose lines are shorter than 64 KiB -/
+theorem readLayerFileScanner_eq (content : Bytes)
+    (h : ∀ l ∈ rawLines content, l.length < scanLimit) :
+    readLayerFileScanner content = readLayerFile content := by
+  unfold readLayerFileScanner readLayerFile
+  have htw : (rawLines content).takeWhile (fun l => decide (l.length < scanLimit)) = rawLines content :=
+    takeWhile_all _ _ (fun l hl => by simpa using h l hl)
+  simp only [htw, Nat.lt_irrefl, if_false, scanLines_eq_rawLines]
+
+open Lc.Lemmas.LayerfileScanner Lc.Mountinfo in
+/-- beyond it: a line the scanner cannot hold always leaves a message -/
+theorem readLayerFileScanner_long (content : Bytes)
+    (h : ∃ l ∈ rawLines content, ¬ l.length < scanLimit) :
+    (readLayerFileScanner content).nmsgs ≥ 1 := by
+  unfold readLayerFileScanner
+  have hlt : ((rawLines content).takeWhile (fun l => decide (l.length < scanLimit))).length < (rawLines content).length := by
+    obtain ⟨l, hl, hn⟩ := h
+    exact takeWhile_short _ _ ⟨l, hl, by simpa using hn⟩
+  simp only [hlt, if_true]
+  omega
+
+/-- non-vacuity of both: a short file is within the limit; a line of exactly 65536 bytes is not
+    and leaves one message while the import line before it is kept and the one after it lost -/
+example : readLayerFileScanner b!"import proc /proc /proc\n" = readLayerFile b!"import proc /proc /proc\n" :=
+  readLayerFileScanner_eq _ (by decide)
 
 end Lc.Props.C11
